@@ -326,6 +326,7 @@ func TestC17_P_ConcurrentReads(t *testing.T) {
 		}
 		ls := st.LinkSystem()
 		c17LS = ls
+		overReified := (kind == "file" || kind == "file-wide") && rapid.IntRange(0, 2).Draw(t, "fileOverReifiedFile") == 0
 		fresh := func() datamodel.Node {
 			if kind == "file-slowroot" {
 				pn, err := loadPlain(ls, root)
@@ -341,6 +342,13 @@ func TestC17_P_ConcurrentReads(t *testing.T) {
 			n, err := loadReified(ls, root, "unixfs")
 			if err != nil {
 				t.Fatalf("harness: reify: %v", err)
+			}
+			if overReified {
+				// the file constructor handed the already reified file (a bytes node that is itself a multi-block file)
+				n, err = file.NewUnixFSFile(sessionCtx, n, ls)
+				if err != nil {
+					t.Fatalf("harness: NewUnixFSFile over a reified file: %v", err)
+				}
 			}
 			return n
 		}
